@@ -119,11 +119,12 @@ LxInit(cfg) ==
            nsvc |-> 0, capi |-> 0, pagei |-> 0,
            xfer |-> <<>>,                   \* open fragmented transfers: [path, svc, next, total, count]
            ledger |-> <<>>,                 \* write services executed during the current call: [key, off, len]
-           svclog |-> <<>>,                 \* tag services executed during the current call: [key, off, bit, svc, status, ext]
+           svclog |-> <<>>,                 \* FAILED tag services of the current call: [key, off, bit, svc, status, ext]
+           okslices |-> {},                 \* <<key, off>> of slices with a successful service in the current call
            texts |-> LOpt(cfg, "status_texts", <<>>),
            upl |-> [pages |-> 0] ]
 
-LxCall(lx, ev) == IF ~lx.on THEN lx ELSE [lx EXCEPT !.pre = lx.mem, !.xfer = <<>>, !.ledger = <<>>, !.svclog = <<>>]
+LxCall(lx, ev) == IF ~lx.on THEN lx ELSE [lx EXCEPT !.pre = lx.mem, !.xfer = <<>>, !.ledger = <<>>, !.svclog = <<>>, !.okslices = {}]
 LxOpenMayFail(lx) == FALSE
 
 IsTagSvc(svc) == svc \in {76, 82, 77, 83, 78}
@@ -139,7 +140,12 @@ LxHandles(lx, svc, segs) ==
 
 (* ------------------------------------------ one tag service ------------------------------------------ *)
 SvcR(fail, reply, lx) == [fail |-> fail, reply |-> reply, lx |-> lx]
-LogSvc(lx, r, svc, status, ext) == [lx EXCEPT !.svclog = Append(@, [key |-> r.key, off |-> r.off, bit |-> r.bit, svc |-> svc, status |-> status, ext |-> ext])]
+\* per call: the failed services (few) and the set of slices that had a successful service (kept small: huge request
+\* lists usually repeat a few slices)
+SvcFailed(svc, status) == ~(status = 0 \/ (status = 6 /\ svc = 82))
+LogSvc(lx, r, svc, status, ext) ==
+    IF SvcFailed(svc, status) THEN [lx EXCEPT !.svclog = Append(@, [key |-> r.key, off |-> r.off, bit |-> r.bit, svc |-> svc, status |-> status, ext |-> ext])]
+    ELSE IF <<r.key, r.off>> \in lx.okslices THEN lx ELSE [lx EXCEPT !.okslices = @ \cup {<<r.key, r.off>>}]
 XferIdx(lx, path, svc) == {i \in 1..Len(lx.xfer) : lx.xfer[i].path = path /\ lx.xfer[i].svc = svc}
 DropXfer(lx, path, svc) == [lx EXCEPT !.xfer = SelectSeq(@, LAMBDA x : ~(x.path = path /\ x.svc = svc))]
 PutXfer(lx, x) == [DropXfer(lx, x.path, x.svc) EXCEPT !.xfer = Append(@, x)]
